@@ -14,6 +14,8 @@ demo=$W/${place#./}
 echo "== mutant $ID ($PROP): demo=$place test=$tname"
 cd $W
 git checkout -q -- . 2>/dev/null
+# files the patch creates are untracked leftovers of the author's own run
+grep -A1 '^--- /dev/null' $M/patch.diff | grep '^+++ b/' | sed 's|^+++ b/||' | while read f; do rm -f "$W/$f"; done
 git apply $M/patch.diff || { echo "patch does not apply in worktree"; exit 2; }
 pkgdir=$(dirname ${place#./})
 # suite with change, without demo
